@@ -1,16 +1,17 @@
 /-
 C01 — Every workflow run finishes with the outcome its definition prescribes.
 Theorems over the engine core model Mistral.Engine (tied to the real engine after every event
-by the `core` stream).  "Never left RUNNING with nothing pending" as a whole-system liveness
-claim is decided by the correspondence + the quiescence monitor on generated runs; what is
-proved here are the rules that make up the prescribed outcome and the absence of model-level
-crashes on acyclic definitions.
+by the `core` and `live` streams): the rules that make up the prescribed outcome, the absence of
+model-level crashes on acyclic definitions, and the liveness clause "never left RUNNING (or its
+tasks left waiting) with nothing pending" for every history of deliveries / results / pause /
+resume / stop (`no_stuck_joinfree`, `no_stuck_acyclic`).
 -/
 import Mistral.Lemmas.Engine
 import Mistral.Lemmas.Affected
 import Mistral.Props.C04
 import Mistral.Lemmas.LiveStates
 import Mistral.Lemmas.LiveInv2
+import Mistral.Lemmas.LiveFresh
 import Mistral.Lemmas.LiveWake
 import Mistral.Lemmas.LiveFinal
 import Mistral.Lemmas.LiveWitness
@@ -133,7 +134,9 @@ theorem crash_only_in_refresh (sp : Spec) (w : World) (ev : Event)
               · rw [checkAffected_crashed]; exact hc
           · split
             · exact hc
-            · split <;> exact hc
+            · split
+              · exact hc
+              · split <;> exact hc
     | rpcResult t ok =>
       apply contra; simp only [step]
       split
@@ -398,20 +401,11 @@ theorem no_stuck_joinfree (sp : Spec) (hjf : joinFree sp) (hstart : startTasks s
 /-! #### definitions with joins -/
 
 open Mistral.Engine.Live in
-/-- every world the history passes through is in the class `PausedClean`: while PAUSED no
-    incomplete execution carries a stale `processed` flag.  (A history leaves the class when a
-    join that `Task.defer` re-opened after it had completed is still unfinished at a `pause`.) -/
-def cleanFrom (sp : Spec) (w : World) (evs : List Event) : Prop :=
-  ∀ n, PausedClean ((evs.take n).foldl (step sp) w)
-
-open Mistral.Engine.Live in
-def pausedCleanRun (sp : Spec) (evs : List Event) : Prop := cleanFrom sp init evs
-
-open Mistral.Engine.Live in
 /-- the complete liveness invariant -/
 structure LiveInv (sp : Spec) (w : World) : Prop where
   i1 : Inv1 w
   sok : SOK sp w.tasks
+  fresh : Fresh w.tasks
   i2 : Inv2 sp w
   jw : JW sp w
   jru : JoinRowsUnique sp w
@@ -419,37 +413,34 @@ structure LiveInv (sp : Spec) (w : World) : Prop where
 
 open Mistral.Engine.Live in
 theorem live_inv_init (sp : Spec) : LiveInv sp init := by
-  refine ⟨inv1_init, ?_, inv2_init sp, jw_init sp, ?_, init_ji sp⟩
+  refine ⟨inv1_init, ?_, fresh_init, inv2_init sp, jw_init sp, ?_, init_ji sp⟩
   · intro r hr; simp [init] at hr
   · intro n _; simp [init, countL]
 
 open Mistral.Engine.Live in
 theorem live_inv_step (sp : Spec) (rk : String → Nat) (hsp : SpecOK sp rk) (hstart : startTasks sp ≠ [])
-    (w : World) (ev : Event) (hl : lossless ev) (hpc : PausedClean w) (h : LiveInv sp w) :
+    (w : World) (ev : Event) (hl : lossless ev) (h : LiveInv sp w) :
     LiveInv sp (step sp w ev) :=
-  ⟨step_inv1 sp hstart w ev hl h.i1, step_SOK sp w ev h.sok, step_inv2 sp w ev hpc h.i2,
+  have hpc : PausedClean w := Fresh.pausedClean w h.fresh
+  ⟨step_inv1 sp hstart w ev hl h.i1, step_SOK sp w ev h.sok, step_fresh sp w ev h.fresh, step_inv2 sp w ev hpc h.i2,
    step_JW sp rk hsp w ev hl h.i1 h.sok h.i2 h.jru h.ji hpc h.jw,
    Props.C04.join_created_once_step sp w ev h.jru, step_ji sp w ev h.ji⟩
 
 open Mistral.Engine.Live in
-/-- the liveness invariant holds in every world reachable by a history inside the class -/
+/-- the liveness invariant holds in every world reachable without the loss of an action -/
 theorem live_inv_acyclic_reachable (sp : Spec) (rk : String → Nat) (hsp : SpecOK sp rk) (hstart : startTasks sp ≠ [])
-    (evs : List Event) (hl : ∀ e ∈ evs, lossless e) (hc : pausedCleanRun sp evs) : LiveInv sp (run sp evs) := by
+    (evs : List Event) (hl : ∀ e ∈ evs, lossless e) : LiveInv sp (run sp evs) := by
   unfold run
-  have hall : ∀ (evs : List Event) (w : World), (∀ e ∈ evs, lossless e) → cleanFrom sp w evs → LiveInv sp w →
+  have hall : ∀ (evs : List Event) (w : World), (∀ e ∈ evs, lossless e) → LiveInv sp w →
       LiveInv sp (evs.foldl (step sp) w) := by
     intro evs
     induction evs with
-    | nil => intro w _ _ h; exact h
+    | nil => intro w _ h; exact h
     | cons e rest ih =>
-      intro w hl hc h
-      have h0 : PausedClean w := by simpa using hc 0
-      refine ih _ (fun e' he' => hl e' (List.mem_cons_of_mem _ he')) ?_
-        (live_inv_step sp rk hsp hstart w e (hl e List.mem_cons_self) h0 h)
-      intro n
-      have := hc (n + 1)
-      simpa using this
-  exact hall evs init hl hc (live_inv_init sp)
+      intro w hl h
+      exact ih _ (fun e' he' => hl e' (List.mem_cons_of_mem _ he'))
+        (live_inv_step sp rk hsp hstart w e (hl e List.mem_cons_self) h)
+  exact hall evs init hl (live_inv_init sp)
 
 open Mistral.Engine.Live in
 /-- "once all in-flight work has been delivered the execution is in a final state - it is never
@@ -457,66 +448,25 @@ open Mistral.Engine.Live in
     for every definition that is acyclic (a rank decreasing along inbound transitions, within the
     recursion budget), has unique task names and satisfiable `join: N` (both guaranteed by the
     validator), whose fired routes are transitions of the definition, within the model's walk
-    budget, and has a start task; for every history of deliveries / results / pause / resume / stop
-    without the loss of an action at its executor that stays inside the class `PausedClean`:
-    a RUNNING execution always has a delivery pending.  The excluded histories are exactly those
-    of the known finding (`no_stuck_acyclic_full_fails`). -/
-theorem no_stuck_acyclic_partial (sp : Spec) (rk : String → Nat) (hsp : SpecOK sp rk) (hstart : startTasks sp ≠ [])
-    (evs : List Event) (hl : ∀ e ∈ evs, lossless e) (hc : pausedCleanRun sp evs)
+    budget, and has a start task; for EVERY history of deliveries / results / pause / resume / stop
+    without the loss of an action at its executor: a RUNNING execution always has a delivery
+    pending.  (Full statement since "fix: re-opening a join resets its processed flag"; before
+    that fix it held only for the histories in which no re-opened join was unfinished at a pause.) -/
+theorem no_stuck_acyclic (sp : Spec) (rk : String → Nat) (hsp : SpecOK sp rk) (hstart : startTasks sp ≠ [])
+    (evs : List Event) (hl : ∀ e ∈ evs, lossless e)
     (hrun : (run sp evs).wf = .RUNNING) : (run sp evs).pending ≠ [] := by
-  have h := live_inv_acyclic_reachable sp rk hsp hstart evs hl hc
+  have h := live_inv_acyclic_reachable sp rk hsp hstart evs hl
   exact pending_of_invariants sp rk (fun w x j hp => path_rank sp rk hsp w x j hp) _ h.i1 h.sok h.i2 h.jw hrun
 
 open Mistral.Engine.Live in
-/-- without a `pause` every history is inside the class: the full statement for histories of
-    deliveries / results / resume / stop -/
-theorem no_stuck_acyclic_nopause (sp : Spec) (rk : String → Nat) (hsp : SpecOK sp rk) (hstart : startTasks sp ≠ [])
-    (evs : List Event) (hl : ∀ e ∈ evs, lossless e) (hnp : ∀ e ∈ evs, e ≠ .pause)
-    (hrun : (run sp evs).wf = .RUNNING) : (run sp evs).pending ≠ [] := by
-  apply no_stuck_acyclic_partial sp rk hsp hstart evs hl _ hrun
-  -- the workflow is never PAUSED
-  have hall : ∀ (evs : List Event) (w : World), (∀ e ∈ evs, e ≠ .pause) → w.wf ≠ .PAUSED →
-      (evs.foldl (step sp) w).wf ≠ .PAUSED := by
-    intro evs
-    induction evs with
-    | nil => intro w _ h; exact h
-    | cons e rest ih =>
-      intro w hnp h
-      refine ih _ (fun e' he' => hnp e' (List.mem_cons_of_mem _ he')) ?_
-      intro hp
-      rcases step_wf sp w e with h1 | ⟨_, _, h1⟩ | ⟨h1, _⟩ | ⟨t, _, h1⟩ | ⟨_, _, h1⟩ | ⟨_, _, h1⟩
-      · rw [h1] at hp; exact h hp
-      · rw [h1] at hp; cases hp
-      · exact hnp e List.mem_cons_self h1
-      · rw [h1] at hp
-        revert hp h
-        cases w.wf <;> cases t <;> decide
-      · rcases h1 with h1 | h1 | h1 | h1 <;> (rw [h1] at hp; cases hp)
-      · rcases h1 with h1 | h1 | h1 <;> (rw [h1] at hp; cases hp)
-  intro n hp
-  exfalso
-  exact hall (evs.take n) init (fun e he => hnp e (List.mem_of_mem_take he)) (by simp [init]) hp
-
-open Mistral.Engine.Live in
-/-- The statement without the restriction to the class is FALSE of the code: the definition
-    `wSpec` (start tasks a, b; `j: join one` of a, b with on-success → k, on-error → e; `z: join
-    all` of k, e) with the history `wEvents` (j fails on branch b, branch a re-opens it, pause, j
-    succeeds while PAUSED, resume) ends RUNNING with nothing pending.  The same event list replayed
-    on the real engine gives the same rows and pending deliveries after every event
-    (corpus/C01/stale_processed_join.json): known finding. -/
-theorem no_stuck_acyclic_full_fails :
-    ¬ (∀ (sp : Spec) (rk : String → Nat), SpecOK sp rk → startTasks sp ≠ [] →
-        ∀ evs : List Event, (∀ e ∈ evs, lossless e) → (run sp evs).wf = .RUNNING → (run sp evs).pending ≠ []) := by
-  intro hall
-  exact hall wSpec wRank ⟨witness_names, witness_joins, witness_budget, witness_live, witness_rank, witness_fuel⟩
-    witness_starts wEvents witness_lossless witness_stuck.1 witness_stuck.2
-
-open Mistral.Engine.Live in
-/-- … and the witness history is outside the class the theorem is stated for (after the `pause`
-    the re-opened join j is WAITING with `processed = true`) -/
-theorem witness_outside_class : ¬ pausedCleanRun wSpec wEvents := by
-  intro h
-  exact witness_not_clean (h 19)
+/-- … and its tasks are not left waiting either: in every reachable world of a workflow that is
+    not finished, every WAITING join has a wake-up delivery of its own in flight or is blocked by
+    an execution of smaller rank that is not completed (or not yet continued while PAUSED) -/
+theorem waiting_join_has_wakeup_or_blocker (sp : Spec) (rk : String → Nat) (hsp : Live.SpecOK sp rk)
+    (hstart : Live.startTasks sp ≠ []) (evs : List Event) (hl : ∀ e ∈ evs, Live.lossless e)
+    (hnf : isCompleted (run sp evs).wf = false) (j : TaskRow) (hj : j ∈ (run sp evs).tasks) (hw : j.state = .WAITING) :
+    (run sp evs).pending.any (Live.isWakeFor (Live.idOf j)) = true ∨ Live.BlockedBy sp (run sp evs) j.name :=
+  (live_inv_acyclic_reachable sp rk hsp hstart evs hl).jw hnf j hj hw
 
 /-! non-vacuity: concrete definitions and histories that meet the hypotheses -/
 
@@ -538,30 +488,18 @@ example : joinFree exChain ∧ startTasks exChain ≠ [] ∧
   · decide +kernel
 
 open Mistral.Engine.Live in
-/-- the witness definition (fork, `join: one` with successors, `join: all`) satisfies `SpecOK` -/
+/-- the regression definition (fork, `join: one` with successors, `join: all`) satisfies `SpecOK` -/
 theorem wSpec_ok : SpecOK wSpec wRank :=
   ⟨witness_names, witness_joins, witness_budget, witness_live, witness_rank, witness_fuel⟩
 
 open Mistral.Engine.Live in
-/-- `no_stuck_acyclic_partial` applies to a history with a pause / resume round on it: the class
-    predicate holds on every prefix, the final world is RUNNING -/
-example : pausedCleanRun wSpec [.start, .pause, .resume] ∧ (run wSpec [.start, .pause, .resume]).wf = .RUNNING := by
-  refine ⟨?_, by decide +kernel⟩
-  intro n
-  rcases n with _ | _ | _ | n
-  · decide +kernel
-  · decide +kernel
-  · decide +kernel
-  · have : List.take (n + 1 + 1 + 1) [Event.start, Event.pause, Event.resume] = [Event.start, Event.pause, Event.resume] := by
-      simp [List.take]
-    rw [this]
-    decide +kernel
-
-open Mistral.Engine.Live in
-/-- `no_stuck_acyclic_nopause` applies to the first 18 events of the witness (both branches and the
-    first run of the partial join done, the join re-opened): RUNNING, and indeed something pending -/
-example : (run wSpec (wEvents.take 18)).wf = .RUNNING ∧ (run wSpec (wEvents.take 18)).pending ≠ [] := by
-  decide +kernel
+/-- `no_stuck_acyclic` applies to the former counter-witness history up to its `resume` (the
+    partial join j failed on its first run, was re-opened by the late branch, ran again and
+    succeeded while PAUSED): the world is RUNNING - and, regression of the repaired defect, the
+    successor k of the second completion has been dispatched by `resume` -/
+example : (∀ e ∈ wEvents.take 32, lossless e) ∧ (run wSpec (wEvents.take 32)).wf = .RUNNING ∧
+    Item.postStartTask ("k", 0) true ∈ (run wSpec (wEvents.take 32)).pending :=
+  ⟨fun e he => witness_lossless e (List.mem_of_mem_take he), witness_continued.1, witness_continued.2⟩
 
 /-- progress: every pending delivery of a world is enabled (`deliver` consumes it; an action at
     an executor is answered through `execute`) -/
